@@ -45,7 +45,8 @@ ASSUMPTIONS = [
     "judged as a caller with default settings would meet it",
     "An object out of from_dict(check_validity=False) may hold fields of any JSON type: only its validating consumers (assert_valid(), and serialize/to_dict/... with check_validity=True) are asked to stay in the contract on it; objects out of wire/text parsers "
     "and out of from_dict(check_validity=True) go through every consumer",
-    "A call slower than the watchdog (30 s, inputs are at most 2^17 bytes/characters) is inconclusive unless it exceeds 60 s in three fresh processes; calls slower than 5 s are tagged",
+    "A call that uses more processor time than the watchdog (30 s of the process's own CPU time, so that the verdict does not move with the load of the machine; five times that on the wall clock, for a call that blocks instead of "
+    "computing; inputs are at most 2^17 bytes/characters) is inconclusive unless it exceeds 60 s of CPU time in three fresh processes; calls slower than 5 s are tagged",
     "Each worker runs under RLIMIT_AS = 4 GiB so that an allocation sized by a hostile count surfaces as MemoryError instead of taking the machine down",
 ]
 CONTRACT = (BTClibValueError, BTClibTypeError, BTClibRuntimeError)
@@ -151,7 +152,9 @@ def guarded(label: str, fn, *args, **kw) -> Result:
         depth, f = depth + 1, f.f_back
     sys.setrecursionlimit(depth + 1000)
     old = signal.signal(signal.SIGALRM, _on_alarm)
-    signal.setitimer(signal.ITIMER_REAL, limit)
+    old_prof = signal.signal(signal.SIGPROF, _on_alarm)
+    signal.setitimer(signal.ITIMER_PROF, limit)  # processor time of this process: the verdict must not depend on what else the machine runs
+    signal.setitimer(signal.ITIMER_REAL, 5 * limit)  # and a wall-clock bound for a call that blocks rather than computes
     t0 = time.perf_counter()
     try:
         r.value = fn(*args, **kw)
@@ -160,6 +163,7 @@ def guarded(label: str, fn, *args, **kw) -> Result:
         r.site = site_of(e)
         r.exc = type(e).__name__
     except RecursionError as e:
+        signal.setitimer(signal.ITIMER_PROF, 0)
         signal.setitimer(signal.ITIMER_REAL, 0)
         sys.setrecursionlimit(rec_old)
         raise Violation(f"RecursionError@{label}", f"input nested deeper than the interpreter's default stack is answered with RecursionError (deepest library line {site_of(e)}), not a library refusal") from None
@@ -169,6 +173,7 @@ def guarded(label: str, fn, *args, **kw) -> Result:
         raise
     except Exception as e:  # noqa: BLE001
         # outside the contract: one signature per (exception type, innermost library frame), whichever sub-check met it
+        signal.setitimer(signal.ITIMER_PROF, 0)
         signal.setitimer(signal.ITIMER_REAL, 0)
         frame = _through_btclib(e.__traceback__)
         if frame is None:
@@ -176,8 +181,10 @@ def guarded(label: str, fn, *args, **kw) -> Result:
         tb = "".join(traceback.format_exception(type(e), e, e.__traceback__))[-1800:]
         raise Violation(f"crash:{type(e).__name__}@{frame}", f"{label}: {tb}") from e
     finally:
+        signal.setitimer(signal.ITIMER_PROF, 0)
         signal.setitimer(signal.ITIMER_REAL, 0)
         signal.signal(signal.SIGALRM, old)
+        signal.signal(signal.SIGPROF, old_prof)
         sys.setrecursionlimit(rec_old)
         r.elapsed = time.perf_counter() - t0
     return r
@@ -187,7 +194,7 @@ _HANGS: set = set()
 
 
 def confirm_hang(subname: str, label: str, case) -> None:
-    """A watchdog expiry is inconclusive; it becomes a violation only when the same case exceeds 60 s in three fresh processes.
+    """A watchdog expiry is inconclusive; it becomes a violation only when the same case exceeds 60 s of CPU time in three fresh processes.
     Once an entry point is confirmed to hang, later expiries on it (the shrinker's attempts) are reported at once."""
     if CONFIRM or label in _HANGS:
         raise Violation(f"hang>60s@{label}", "exceeded 60 s in a fresh process")
@@ -197,8 +204,11 @@ def confirm_hang(subname: str, label: str, case) -> None:
     try:
         for _ in range(3):
             env = dict(os.environ, C19_CONFIRM_HANG="1")
-            p = subprocess.run([sys.executable, os.path.join(VERIF, "run_check.py"), PROPERTY, "--replay", path], capture_output=True, text=True, env=env, cwd=VERIF, timeout=400)
-            if p.returncode != 1 or "hang>60s" not in p.stdout:
+            try:
+                p = subprocess.run([sys.executable, os.path.join(VERIF, "run_check.py"), PROPERTY, "--replay", path], capture_output=True, text=True, env=env, cwd=VERIF, timeout=1200)
+            except subprocess.TimeoutExpired:
+                return  # the machine is too loaded to tell: inconclusive, never a violation
+            if p.returncode != 1 or f"hang>60s@{label}" not in p.stdout:
                 return
     finally:
         os.unlink(path)
@@ -397,7 +407,7 @@ def check_bytes(case, subname="parsers_bytes"):
                                     f"the parser read less or more than its own encoding. data={full.hex()[:600]}")
                 if not _same(r.value, r2.value):
                     raise Violation(f"stream-consumed-parses-differently@{label}", f"position {p} of {len(full)}: data={full.hex()[:600]}")
-                if pristine and p != len(seed) and x == ep.variants[0]:
+                if pristine and p != len(seed) and rnd["variant"] % len(ep.variants) == 0:
                     raise Violation(f"stream-position-after-valid-seed@{label}", f"position {p}, encoding is {len(seed)} bytes, {len(tail)} bytes follow")
                 tags.append("stream-checked")
         else:
@@ -676,27 +686,20 @@ def run_single_text_unit(key, col) -> None:
 BOMB_SHAPES = {"bomb_desc": S.BOMBS_DESC, "bomb_ms": S.BOMBS_MS, "bomb_path": S.BOMBS_PATH, "bomb_uri": S.BOMBS_URI, "bomb_words": S.BOMBS_WORDS}
 
 
-_TIER = ["quick"]
-
-
-def tier_of_run() -> str:
-    return os.environ.get("C19_TIER", _TIER[0])
-
-
 def bomb_units(tier: str) -> list:
-    os.environ["C19_TIER"] = tier  # the workers are forked after the units are listed: they inherit it
-    return [[kind, shape] for kind, shapes in BOMB_SHAPES.items() for shape in range(len(shapes))]
+    return [[kind, shape, tier] for kind, shapes in BOMB_SHAPES.items() for shape in range(len(shapes))]
 
 
 def run_bomb_unit(unit, col) -> None:
     """one nesting/repetition shape of one grammar, at every size (10 .. 10^4, capped at 2^17 characters), unmutated, through every entry point that reads the grammar"""
-    kind, shape = unit
+    kind, shape = unit[:2]
+    tier = unit[2] if len(unit) > 2 else "quick"  # the tier travels with the unit: the workers exist before the units are listed
     n_calls = n_deep = 0
     tags: dict = {}
-    for n in (1000, 10000) if tier_of_run() == "quick" else S.BOMB_N:
+    for n in (1000, 10000) if tier == "quick" else S.BOMB_N:
         text = S.TXT[kind][1]([shape, n])
         for ep in text_eps_for(kind):
-            for x in ep.variants[: 1 if tier_of_run() == "quick" else 2]:
+            for x in ep.variants[: 1 if tier == "quick" else 2]:
                 arg = text.split("\n") if "mnemonics" in ep.key else text
                 try:
                     res = guarded(ep.key, ep.call, arg, True, x)
@@ -886,8 +889,12 @@ def check_predicate(case, subname="predicates"):
     name = case["pred"]
     get_fn, get_args, cats = CP._table()[name]
     fn, args = get_fn(fx), list(get_args(fx))
-    for pos, spec in case["subs"]:
-        args[pos] = CP.build_value(spec, args[pos])
+    try:
+        for pos, spec in case["subs"]:
+            args[pos] = CP.build_value(spec, args[pos])
+    except CONTRACT:
+        # an object built with check_validity=False that its class refuses all the same: there is no value to hand to the predicate
+        return Outcome(False, (name, "value-not-constructible"))
     before = is_libsecp256k1_serving()
     set_libsecp256k1_serving(serving=bool(case["backend"]))
     try:
@@ -1029,7 +1036,10 @@ def _prevouts(extra, n: int):
     from btclib.tx import TxOut
 
     prev = extra["prev"] or [0]
-    return [TxOut(extra["amt"] if k == 0 else 1000 + k, ScriptPubKey(bytes.fromhex(PREV_SPKS[prev[k % len(prev)]]), check_validity=False), check_validity=False) for k in range(n)]
+    try:
+        return [TxOut(extra["amt"] if k == 0 else 1000 + k, ScriptPubKey(bytes.fromhex(PREV_SPKS[prev[k % len(prev)]]), check_validity=False), check_validity=False) for k in range(n)]
+    except CONTRACT:
+        return None  # the classes refuse the drawn amount or script even unchecked: nothing to spend from
 
 
 def _parse_quietly(label, fn, *args, **kw):
@@ -1070,9 +1080,14 @@ def _consume(obj, extra, tags: list, checked_only: bool = False) -> None:
             # the one field of a spend the consensus code indexes into before it has validated anything: the witness, replaced by a drawn stack
             from btclib.script.witness import Witness
 
-            obj.vin[min(max(extra["idx"], 0), n - 1)].script_witness = Witness([bytes.fromhex(w) for w in extra["wit"]], check_validity=False)
+            try:
+                obj.vin[min(max(extra["idx"], 0), n - 1)].script_witness = Witness([bytes.fromhex(w) for w in extra["wit"]], check_validity=False)
+            except CONTRACT:
+                pass  # the class refuses the drawn stack even unchecked: the spend keeps the witness it was parsed with
         for count, taproot in ((n, False), (n, True), (max(n - 1, 0), False)):
             prevouts = _prevouts(dict(extra, prev=[2, 10]) if taproot else extra, count)
+            if prevouts is None:
+                continue
             for i in sorted({0, n - 1, extra["idx"]} if n else {0}):
                 guarded("sig_hash.from_tx", sig_hash.from_tx, prevouts, obj, i, ht)
                 guarded("engine.verify_input", verify_input, prevouts, obj, i, flags)
@@ -1118,7 +1133,8 @@ def _consume(obj, extra, tags: list, checked_only: bool = False) -> None:
             _touch(part, type(part).__name__, tags)
         r = guarded("Psbt.tx", getattr, obj, "tx")
         if r.ok and isinstance(r.value, Tx) and len(r.value.vin) <= 4:
-            guarded("engine.verify_transaction(psbt.tx)", verify_transaction, _prevouts(extra, len(r.value.vin)), r.value, flags)
+            if _prevouts(extra, len(r.value.vin)) is not None:
+                guarded("engine.verify_transaction(psbt.tx)", verify_transaction, _prevouts(extra, len(r.value.vin)), r.value, flags)
         tags.append("psbt-consumers")
     elif isinstance(obj, Descriptor):
         for i in sorted({0, extra["idx"]}):
@@ -1318,6 +1334,7 @@ def run_seed_unit(kind, col) -> None:
     eps = [e for e in T.bin_eps_for(kind) if e.kinds[0] == kind]
     n = [0]
     distinct = set()
+    refusals: dict = {}
 
     def one(c):
         data = S.BIN[kind][1](c)
@@ -1331,10 +1348,12 @@ def run_seed_unit(kind, col) -> None:
                 res = guarded(ep.key, ep.call, data, False, x)
             n[0] += 1
             if not res.ok:
-                raise Violation(f"valid-encoding-refused@{ep.key}", f"a seed of kind {kind} ({data.hex()[:200]}) is refused: {res.exc} at {res.site}")
+                # a refusal with a library exception is inside C19's contract (whether the encoding deserved it is C05's question): it is counted, so that a
+                # generator that stopped reaching the parsers shows in the evidence, and it is not a violation of this property
+                refusals[f"GENERATOR-FLAG seed of kind {kind} refused by {ep.key}: {res.exc} at {res.site}"] = 1
 
     settings(max_examples=4, database=None, deadline=None, suppress_health_check=list(HealthCheck), phases=[Phase.generate])(seed(19)(given(S.BIN[kind][0]())(one)))()
-    col.bulk(n[0], len(distinct) * len(eps), sample={"kind": kind, "entry_points": [e.key for e in eps]})
+    col.bulk(n[0], 0 if refusals else len(distinct) * len(eps), sample={"kind": kind, "entry_points": [e.key for e in eps]}, tags=refusals)
 
 
 # ------------------------------------------------------------------------------------------------ model validation
@@ -1371,7 +1390,7 @@ def validate_models() -> None:
 
 
 SUBCHECKS = [
-    SubCheck("seed_soundness", None, "every binary seed kind, unmutated, is accepted by the parsers it is the natural input of (the generators produce valid encodings)", units=seed_units, run_unit=run_seed_unit, exhaustive=True),
+    SubCheck("seed_soundness", None, "generator soundness, not a verdict on the library: every binary seed kind, unmutated, goes to the parsers it is the natural input of; a foreign exception is a violation as everywhere, a refusal is flagged in the tags (GENERATOR-FLAG) and makes the unit trivial", units=seed_units, run_unit=run_seed_unit, exhaustive=True),
     SubCheck("parsers_bytes", skippable("parsers_bytes", check_bytes), "every binary parse/decode entry point x valid encodings under stacked mutations (bytes, BytesIO+tail, hex str, bytearray, memoryview; check_validity on/off; every extra-argument variant): "
              "returns or refuses within the contract; BytesIO position exact. Non-trivial: accepted, or refused at a source line a structure-blind input (empty / uniform random) does not reach",
              bytes_case, quick=6000, thorough=80000, max_buckets=4),
@@ -1399,8 +1418,11 @@ SUBCHECKS = [
              "is_on_curve) from a call that answers True, with one, two or all arguments replaced by generated values of the DECLARED type (bytes of every length, hex/non-hex/non-ASCII str, bytearray, memoryview; SEC keys "
              "valid, x>=p, off-curve, hybrid, the other root; xpub strings/objects under mutation; points with edge coordinates; Sig objects built unchecked with edge r/s; DER/base64 under structural mutation; ints in and out "
              "of range; sequences of mismatched lengths), on both backends: the call returns a bool", CP.predicate_case, quick=5000, thorough=60000, max_buckets=4),
-    SubCheck("coverage_guided", None, "atheris / libFuzzer campaigns (btclib instrumented, in-process) over 10 targets - transaction, block and header, psbt, p2p message, script / tapscript / witness / script_pub_key, keys and signatures, descriptor text, miniscript text, miniscript scripts, address / key / URI text codecs - each seeded with a few valid encodings, libFuzzer seed derived from VERIF_SEED; the oracle is inside the target: return or BTClib exception, accepted bytes re-serialize to exactly what was consumed and parse again alone, ids and sizes equal the wire model's, text forms re-parse to equal objects; non-trivial: inputs libFuzzer kept because they reached new coverage",
-             units=lambda tier: __import__("checks.c19_fuzz", fromlist=["units"]).units(tier), run_unit=lambda unit, col: __import__("checks.c19_fuzz", fromlist=["run_unit"]).run_unit(unit, col)),
+    SubCheck("coverage_guided", None, "atheris / libFuzzer campaigns (btclib instrumented, in-process) over 10 targets - transaction, block and header, psbt, p2p message, script / tapscript / witness / script_pub_key, keys and signatures, "
+             "descriptor text, miniscript text, miniscript scripts, address / key / URI text codecs - each seeded with a few valid encodings, libFuzzer seed derived from VERIF_SEED; the oracle is inside the target: every parser returns or raises a "
+             "BTClib exception, the bytes a stream parser consumed parse alone, and the accepted object goes through its writers and consumers inside the same contract (the round-trip identities of the same targets are asserted by the campaigns of "
+             "C05, C06, C14 and C15, not here); non-trivial: inputs libFuzzer kept because they reached new coverage",
+             units=lambda tier: __import__("checks.c19_fuzz", fromlist=["units"]).units(tier, "C19"), run_unit=lambda unit, col: __import__("checks.c19_fuzz", fromlist=["run_unit"]).run_unit(unit, col, "C19")),
     SubCheck("predicate_spellings", None, "exhaustive: every predicate's True-answering call x every bytes/str argument respelled in each other form its declared type admits (bytearray, memoryview, hex str lower/upper/"
              "space-padded; ascii bytes/bytearray/memoryview for String) x both backends: the answer stays True", units=spelling_units, run_unit=run_spelling_unit, exhaustive=True),
     SubCheck("consumers", skippable("consumers", check_consumers), "objects that a parser ACCEPTED from (lightly) mutated bytes / text / JSON, check_validity on and off, are handed to every consumer: every public property and "
